@@ -471,6 +471,40 @@ func (ev *tplEval) evalList(fc *fctx, e ast.Expr) (Sketch, bool) {
 		}
 		return nil, false
 	}
+	// a list kept in a field of a local struct: the elements appended to that field
+	if sel, ok := e.(*ast.SelectorExpr); ok && fc.fn != nil {
+		if rid := identOf(sel.X); rid != nil {
+			if robj, ok := objOf(info, rid).(*types.Var); ok && !robj.IsField() {
+				if _, isStruct := robj.Type().Underlying().(*types.Struct); isStruct {
+					var elems []Sketch
+					for _, d := range localFieldDefs(info, fc.fn, robj, sel.Sel.Name) {
+						if call, ok := ast.Unparen(d).(*ast.CallExpr); ok && isBuiltinCall(info, call, "append") {
+							for _, a := range call.Args[1:] {
+								if call.Ellipsis.IsValid() {
+									if el, ok := ev.evalList(fc, a); ok {
+										elems = append(elems, el)
+									}
+									continue
+								}
+								elems = append(elems, ev.eval(fc, a))
+							}
+						} else if cl, ok := ast.Unparen(d).(*ast.CompositeLit); ok {
+							for _, el := range cl.Elts {
+								elems = append(elems, ev.eval(fc, el))
+							}
+						}
+					}
+					switch len(elems) {
+					case 0:
+					case 1:
+						return elems[0], true
+					default:
+						return Sketch{Alt{elems}}, true
+					}
+				}
+			}
+		}
+	}
 	id := identOf(e)
 	if id == nil || fc.fn == nil {
 		return nil, false
